@@ -554,14 +554,14 @@ theorem st_unlock (w : Bool) (hpc : (s.ths i).pc = .unlock w) (h : step_unlock c
         · unfold rmwState; simp [setTh]
   · simp at h
 
-theorem pc_wakeAll_self (c : Cfg) (s : St) (l : List Nat) (i : Nat) (hn : i ∉ l) : (wakeAll c s l).ths i = s.ths i := by
-  induction l generalizing s with
-  | nil => rfl
-  | cons j rest ih =>
-    simp only [wakeAll]
-    have hji : i ≠ j := by intro h; subst h; simp at hn
-    rw [ih _ (by intro h; exact hn (by simp [h]))]
-    simp [setTh_ths, hji]
+theorem isRW_wakeOne (c : Cfg) (s : St) (j i : Nat) :
+    ((wakeOne c s j).ths i).pc.isR = (s.ths i).pc.isR ∧ ((wakeOne c s j).ths i).pc.isW = (s.ths i).pc.isW := by
+  unfold wakeOne
+  by_cases hij : i = j
+  · subst hij
+    simp only [setTh_ths_same]
+    cases hp : (s.ths i).pc <;> simp [Pc.isR, Pc.isW, wokenPc]
+  · simp [setTh_ths, hij]
 
 theorem isRW_wakeAll (c : Cfg) (s : St) (l : List Nat) (i : Nat) :
     ((wakeAll c s l).ths i).pc.isR = (s.ths i).pc.isR ∧ ((wakeAll c s l).ths i).pc.isW = (s.ths i).pc.isW := by
@@ -569,17 +569,7 @@ theorem isRW_wakeAll (c : Cfg) (s : St) (l : List Nat) (i : Nat) :
   | nil => exact ⟨rfl, rfl⟩
   | cons j rest ih =>
     simp only [wakeAll]
-    refine ⟨(ih _).1.trans ?_, (ih _).2.trans ?_⟩
-    · by_cases hij : i = j
-      · subst hij
-        simp only [setTh_ths_same]
-        cases hp : (s.ths i).pc <;> simp [Pc.isR]
-      · simp [setTh_ths, hij]
-    · by_cases hij : i = j
-      · subst hij
-        simp only [setTh_ths_same]
-        cases hp : (s.ths i).pc <;> simp [Pc.isW]
-      · simp [setTh_ths, hij]
+    exact ⟨(ih _).1.trans (isRW_wakeOne c s j i).1, (ih _).2.trans (isRW_wakeOne c s j i).2⟩
 
 include hi hinv in
 theorem st_kWakeW (fb : Bool) (hpc : (s.ths i).pc = .kWakeW fb) (h : step_kWakeW c s i (s.ths i) fb e = some s') : RInv s' := by
